@@ -42,6 +42,26 @@ def expandSeq (out : Bytes) (s : Seq) : Bytes := expandMatch s.off s.len (out ++
 
 def expandFrom (ss : List Seq) (out : Bytes) : Bytes := ss.foldl expandSeq out
 
+/-! ### compiled code: array version of `expandFrom` (`@[csimp]`, proved equal) -/
+
+def expandSeqA (out : Array UInt8) (s : Seq) : Array UInt8 := expandMatchA s.off s.len (out ++ s.lits.toArray)
+
+theorem expandSeqA_toList (out : Array UInt8) (s : Seq) : (expandSeqA out s).toList = expandSeq out.toList s := by
+  simp [expandSeqA, expandSeq, expandMatchA_toList]
+
+def expandFromFast (ss : List Seq) (out : Bytes) : Bytes := (ss.foldl expandSeqA out.toArray).toList
+
+theorem foldl_expandSeqA (ss : List Seq) (out : Array UInt8) :
+    (ss.foldl expandSeqA out).toList = ss.foldl expandSeq out.toList := by
+  induction ss generalizing out with
+  | nil => rfl
+  | cons s ss ih => simp only [List.foldl_cons, ih, expandSeqA_toList]
+
+@[csimp] theorem expandFrom_eq_fast : @expandFrom = @expandFromFast := by
+  funext ss out
+  simp [expandFrom, expandFromFast, foldl_expandSeqA]
+
+
 def expand (b : Block) : Bytes := expandFrom b.seqs [] ++ b.last
 
 def Seq.produces (s : Seq) : Nat := s.lits.length + s.len
